@@ -48,6 +48,28 @@ func c14ArmStop(x *Ctx) {
 	plans := make([]plan, nConn)
 	for i := range plans {
 		n := 1 + x.Choose("ops", 8)
+		if x.Feat(FeatTimerTies) && x.Chance("tie-plan", 0.35) {
+			// the running timer expires at the very instant of the next operation: the
+			// timer goroutine and the operation that replaces / stops it run in an
+			// order the scheduler picks; what follows shows whether the successor can
+			// still be stopped and replaced
+			d := armDurations[x.Choose("tie-d", 3)] // 1 ms, 1 s, 5 s
+			if x.Chance("tie-on-initial-timer", 0.3) {
+				plans[i].ops = append(plans[i].ops, timerOp{"sleep", 10 * time.Second})
+			} else {
+				plans[i].ops = append(plans[i].ops, timerOp{"arm", d}, timerOp{"sleep", d})
+			}
+			d2 := armDurations[1+x.Choose("tie-d2", 4)]
+			plans[i].ops = append(plans[i].ops, timerOp{"arm", d2})
+			switch x.Choose("tie-then", 3) {
+			case 0:
+				plans[i].ops = append(plans[i].ops, timerOp{"stop", 0}, timerOp{"arm", 60 * time.Second})
+			case 1:
+				plans[i].ops = append(plans[i].ops, timerOp{"arm", 60 * time.Second})
+			default:
+				plans[i].ops = append(plans[i].ops, timerOp{"sleep", gapDurations[x.Choose("gap-d", len(gapDurations))]}, timerOp{"arm", 60 * time.Second})
+			}
+		}
 		for j := 0; j < n; j++ {
 			switch x.Choose("op", 3) {
 			case 0:
@@ -109,7 +131,11 @@ func c14ArmStop(x *Ctx) {
 			// began at b with duration d expires no earlier than b+d; it is certainly dead
 			// before its expiry only if the stop / re-arm that ended it had *returned*
 			// before b+d.
-			type tm struct{ begin, minExp, dead time.Duration } // dead < 0: never stopped or replaced
+			// ... and it expires no later than e+d if the arming operation had returned at e; a
+			// delivery may lag behind the expiry by scheduling delays (stall fault: <= 50 ms
+			// a time), not by more than lateSlack.
+			const lateSlack = 500 * time.Millisecond
+			type tm struct{ begin, minExp, maxExp, dead time.Duration } // dead < 0: never stopped or replaced
 			var timers []tm
 			fired := 0
 			kill := func(t time.Duration) {
@@ -123,8 +149,11 @@ func c14ArmStop(x *Ctx) {
 				}
 				switch e.Kind {
 				case "t-arm-begin":
-					timers = append(timers, tm{e.T, e.T + time.Duration(e.N)*time.Millisecond, -1})
+					timers = append(timers, tm{e.T, e.T + time.Duration(e.N)*time.Millisecond, -1, -1})
 				case "t-arm":
+					if n := len(timers); n >= 1 && timers[n-1].maxExp < 0 {
+						timers[n-1].maxExp = e.T + time.Duration(e.N)*time.Millisecond
+					}
 					// the re-arm has returned: every older timer is replaced from now on
 					if n := len(timers); n >= 2 {
 						for j := 0; j < n-1; j++ {
@@ -145,7 +174,7 @@ func c14ArmStop(x *Ctx) {
 						}
 						explained := false
 						for _, t := range timers {
-							if e.T >= t.minExp && (t.dead < 0 || t.dead >= t.minExp) {
+							if e.T >= t.minExp && (t.maxExp < 0 || e.T <= t.maxExp+lateSlack) && (t.dead < 0 || t.dead >= t.minExp) {
 								// armed, its duration has passed, and it was not stopped or
 								// replaced before its (earliest possible) expiry
 								explained = true
